@@ -137,7 +137,22 @@ func (m *Msg) readBody(br *bufio.Reader) error {
 		m.Complete = true
 		return nil
 	case "cl":
-		n, _ := strconv.Atoi(strings.TrimSpace(m.Get("Content-Length")))
+		n, perr := strconv.Atoi(strings.TrimSpace(m.Get("Content-Length")))
+		if n < 0 || (perr != nil && n != 0) {
+			// negative, or out of range (Atoi saturates): no length a parser could honour
+			return fmt.Errorf("bad Content-Length %q", m.Get("Content-Length"))
+		}
+		if n > 1<<20 {
+			// a huge announced length: read what comes instead of allocating it up front
+			var buf bytes.Buffer
+			k, err := io.CopyN(&buf, br, int64(n))
+			m.Body = buf.Bytes()
+			if err != nil || k < int64(n) {
+				return ErrIncomplete
+			}
+			m.Complete = true
+			return nil
+		}
 		buf := make([]byte, n)
 		k, err := io.ReadFull(br, buf)
 		m.Body = buf[:k]
